@@ -156,4 +156,66 @@ def rule_c(ctx: Ctx) -> None:
     ctx.explain('C05.c: on every path to `return text` of the atomic encoders the validators loop and the pattern test are passed.')
 
 
-RULES = [rule_a, rule_b, rule_c]
+def _is_attr_unmap(e: ast.AST) -> bool:
+    """self.unmap_qname(<name>, xsd_element.attributes) — the form that leaves an unprefixed attribute name unqualified."""
+    if isinstance(e, ast.NamedExpr):
+        e = e.value
+    return isinstance(e, ast.Call) and text(e.func) == 'self.unmap_qname' and \
+        ((len(e.args) >= 2 and text(e.args[1]) == 'xsd_element.attributes') or
+         any(k.arg == 'name_table' and text(k.value) == 'xsd_element.attributes' for k in e.keywords))
+
+
+def rule_d(ctx: Ctx) -> None:
+    """Sibling agreement (Engler): every key stored in the `attributes` mapping by an element_encode override is
+    resolved against the attribute name table."""
+    rule = 'C05.d'
+    base = ctx.idx.cls('xmlschema.converters.base.XMLSchemaConverter')
+    n = 0
+    for f in ctx.idx.overrides(base, 'element_encode'):
+        g = cfg_of(ctx, f)
+        rd = None
+        short = f.qualname.split('.', 2)[-1]
+        for node in g.stmt_nodes():
+            for e in node.exprs:
+                for s_ in ast.walk(e):
+                    keys = []
+                    if isinstance(s_, ast.Assign):
+                        for t in s_.targets:
+                            if isinstance(t, ast.Subscript) and text(t.value) == 'attributes':
+                                keys.append(t.slice)
+                        if text(s_.targets[0]) == 'attributes' and isinstance(s_.value, ast.DictComp):
+                            keys.append(s_.value.key)
+                    elif isinstance(s_, ast.Call) and text(s_.func) == 'attributes.update' and s_.args:
+                        a = s_.args[0]
+                        if isinstance(a, (ast.GeneratorExp, ast.ListComp)) and isinstance(a.elt, ast.Tuple) and a.elt.elts:
+                            keys.append(a.elt.elts[0])
+                        elif isinstance(a, ast.DictComp):
+                            keys.append(a.key)
+                        else:
+                            keys.append(a)
+                    for k in keys:
+                        n += 1
+                        ok = _is_attr_unmap(k)
+                        src = text(k)
+                        if not ok and isinstance(k, ast.Name):
+                            if rd is None:
+                                rd = g.reaching_defs()
+                            defs = rd[node].get(k.id, set())
+                            vals = []
+                            for d in defs:
+                                if d.ast is not None and d is not g.entry:
+                                    if isinstance(d.ast, ast.Assign):
+                                        vals.append(d.ast.value)
+                                    else:   # walrus in a test
+                                        vals.extend(x for ex in d.exprs for x in ast.walk(ex) if isinstance(x, ast.NamedExpr) and text(x.target) == k.id)
+                            ok = bool(vals) and all(_is_attr_unmap(v) for v in vals)
+                            src = ' | '.join(text(v)[:60] for v in vals)
+                        ctx.ob(rule, f'{short}: attribute key `{text(k)[:40]}` is resolved against the attribute name table', f.loc(s_), ok,
+                               '' if ok else f'key comes from `{src}`: an unprefixed attribute name is mapped into the default namespace '
+                               f'and no longer matches its declaration', key=f'{f.qualname}|attr-key|{text(k)[:40]}|{node.lineno if not ok else ""}')
+    ctx.floor(rule, 'attribute key stores in element_encode overrides', n, 8)
+    ctx.explain('C05.d: every key written to the attributes mapping by the element_encode overrides comes from '
+                'unmap_qname(name, xsd_element.attributes) (reaching definitions; sibling agreement across the converters).')
+
+
+RULES = [rule_a, rule_b, rule_c, rule_d]
